@@ -1062,6 +1062,142 @@ func init() {
 		Rule: "R11m", Substr: "LocalName answers", Why: "name tests on text nodes differ from the reference"})
 }
 
+// ---------------------------------------------------------------- the cursor is not restarted at the root
+
+// cursorNotRestartedAtRoot: a stream reader's root node can itself be the delivered record (xpath "." or "/"): Release
+// then hands it back to the pool while the reader's root field still points at it. That is harmless only because nothing
+// reads the root field as a *position* again once the cursor has left the tree. In the methods of every type of package
+// idr that has a Release(*Node) method, no store into a *Node field takes a value loaded from a *Node field that is
+// written by the constructor only (the root): `sp.cur = sp.root` outside the constructor re-enters a possibly released
+// node (seed C12-16: concatenated JSON values restart at the root).
+func cursorNotRestartedAtRoot(c *core.Ctx, rule string) {
+	c.SSA()
+	idr := c.Pkg("idr")
+	if idr == nil {
+		c.Unresolved(rule, "package idr", "not loaded")
+		return
+	}
+	isNodePtr := func(t types.Type) bool {
+		p, ok := t.(*types.Pointer)
+		if !ok {
+			return false
+		}
+		n := core.NamedOf(p.Elem())
+		return n != nil && n.Obj().Name() == "Node" && n.Obj().Pkg() == idr.Types
+	}
+	readers := 0
+	for _, name := range idr.Types.Scope().Names() {
+		tn, ok := idr.Types.Scope().Lookup(name).(*types.TypeName)
+		if !ok {
+			continue
+		}
+		named, ok := tn.Type().(*types.Named)
+		if !ok {
+			continue
+		}
+		st, ok := named.Underlying().(*types.Struct)
+		if !ok {
+			continue
+		}
+		rel := c.MethodOfPkg(idr.Types, named.Obj().Name(), "Release")
+		if rel == nil {
+			continue
+		}
+		nodeFields := map[*types.Var]bool{}
+		for i := 0; i < st.NumFields(); i++ {
+			if isNodePtr(st.Field(i).Type()) {
+				nodeFields[st.Field(i)] = true
+			}
+		}
+		if len(nodeFields) < 2 {
+			continue
+		}
+		// methods of the type (incl. closures)
+		var methods []*ssa.Function
+		for _, f := range c.RepoFunctions() {
+			g := f
+			for g.Parent() != nil {
+				g = g.Parent()
+			}
+			if g.Signature.Recv() != nil && core.NamedOf(g.Signature.Recv().Type()) == named {
+				methods = append(methods, f)
+			}
+		}
+		// fields written by methods
+		written := map[*types.Var]bool{}
+		for _, f := range methods {
+			for _, w := range core.Writes(f) {
+				if w.Kind == "field" && nodeFields[w.Field] && w.Owner == named {
+					written[w.Field] = true
+				}
+			}
+		}
+		var roots []*types.Var
+		for fl := range nodeFields {
+			if !written[fl] {
+				roots = append(roots, fl)
+			}
+		}
+		if len(roots) == 0 {
+			continue
+		}
+		readers++
+		isRoot := func(v ssa.Value) bool {
+			for i := 0; i < 4; i++ {
+				if p, ok := v.(*ssa.Phi); ok && len(p.Edges) > 0 {
+					for _, e := range p.Edges {
+						if fp, ok := core.LoadedField(e); ok && len(fp.Path) > 0 {
+							for _, r := range roots {
+								if fp.Path[len(fp.Path)-1] == r {
+									return true
+								}
+							}
+						}
+					}
+					return false
+				}
+				break
+			}
+			fp, ok := core.LoadedField(v)
+			if !ok || len(fp.Path) == 0 {
+				return false
+			}
+			for _, r := range roots {
+				if fp.Path[len(fp.Path)-1] == r {
+					return true
+				}
+			}
+			return false
+		}
+		bad := false
+		for _, f := range methods {
+			for _, w := range core.Writes(f) {
+				if w.Kind != "field" || !nodeFields[w.Field] || w.Owner != named || w.Val == nil {
+					continue
+				}
+				if isRoot(w.Val) {
+					bad = true
+					c.Bad(rule, core.FuncKey(f)+" restarts "+w.Field.Name()+" at the root", w.Pos, "a position field of the reader is set to the value of the constructor-only root field outside the constructor: when the root itself was delivered it has been released to the pool, and the reader continues inside a node it no longer owns (the pool hands it to someone else, or the tree becomes cyclic)")
+				}
+			}
+		}
+		if !bad {
+			c.OK(rule, "idr."+named.Obj().Name()+" never re-enters its root", rel.Pos(), "no method stores the root field's value into a position field")
+		}
+	}
+	c.Floor(rule, 2, "stream readers with a constructor-only root field")
+	_ = readers
+}
+
+func init() {
+	wrapRun("C12", func(c *core.Ctx) {
+		if c.CountRule("R12l") == 0 {
+			cursorNotRestartedAtRoot(c, "R12l")
+		}
+	})
+	addDoc("C12", "R12l no method of a stream reader stores the value of its constructor-only root field into a position field (the root may have been delivered and released).")
+}
+
 func init() {
 	wrapRun("C18", func(c *core.Ctx) {
 		if c.CountRule("R18h") == 0 {
